@@ -10,13 +10,6 @@ PID = 'C07'
 SHORT = 'decode'
 
 ENV = '''
-#[derive(Debug, Clone, Copy, PartialEq, Eq, Structural)]
-pub struct StatusCode { pub bits: u32 }
-impl StatusCode {
-    pub const BadDecodingError: StatusCode = StatusCode { bits: 0x8007_0000 };
-    pub const BadServiceUnsupported: StatusCode = StatusCode { bits: 0x800B_0000 };
-    pub const BadUnexpectedError: StatusCode = StatusCode { bits: 0x8001_0000 };
-}
 pub struct DecodingOptions { pub x: u8 }
 pub struct SecureChannel { pub decoding_options: DecodingOptions }
 impl SecureChannel {
@@ -188,6 +181,7 @@ def build(manifest):
     a = Asm()
     a.add('use vstd::prelude::*;\nverus! {\nglobal size_of usize == 8;\n', 'prelude', 'env')
     a.add(norm_vis('\n'.join([mc.enum('MessageChunkType'), mc.enum('MessageIsFinalType'), mc.struct('MessageChunkHeader')])), 'types', 'env')
+    a.add(status_code_struct(manifest), 'status codes', 'env')      # every status code of the real file (D14)
     a.add('pub struct Chunker;\n' + ENV, 'env', 'env')
     a.add('impl Chunker {')
     a.add(f, 'decode', 'fn')
